@@ -202,6 +202,7 @@ package node
 //@   ensures[cond_tested;C12,C09] exists k :: old(len(*cr.CS)) <= k && k < len(*cr.CS) && isCondJump((*cr.CS)[k])
 //@ func (IfElse).byteCode [C05,C12] implements ByteCoder.byteCode
 //@   assumes[unfold] exprOK(i.Condition) && wfAST(i.TrueCase) && wfAST(i.FalseCase) && (dyntype(i.Condition) == typeid[UnOp]() ==> exprOK(i.Condition.(UnOp).Target))
+//@   ensures[cond_tested;C12,C09] exists k :: old(len(*cr.CS)) <= k && k < len(*cr.CS) && isCondJump((*cr.CS)[k])
 //
 // for loops: one context id per iterator, allocated above the ids of the enclosing loops; the body
 // sees all of them (CtxLo..CtxHi) so that a return inside nested loops can delete every one.
@@ -230,6 +231,7 @@ package node
 //@ pred whileOK(w While) bool := exprOK(w.Condition) && wfAST(w.Body) && (dyntype(w.Condition) == typeid[UnOp]() ==> exprOK(w.Condition.(UnOp).Target))
 //@ func (While).byteCode [C05,C12] implements ByteCoder.byteCode
 //@   assumes[unfold] whileOK(w)
+//@   ensures[cond_tested;C12,C09] exists k :: old(len(*cr.CS)) <= k && k < len(*cr.CS) && isCondJump((*cr.CS)[k])
 //@ func discardingWhile [C05,C12]
 //@   requires[sel] 0 <= srcsel && srcsel <= 2
 //@   requires[ast] whileOK(w) && fl.Data().OpDepth == 0
@@ -239,6 +241,7 @@ package node
 //@   ensures[K2_code] csKept(cr) && csNewWF(cr)
 //@   ensures[K2_data] dsKept(cr) && crOK(cr)
 //@   ensures[K1_desc] descOnly(result, srcsel) && bck(result, srcsel) == bytecode.AddrInv
+//@   ensures[cond_tested;C12,C09] exists k :: old(len(*cr.CS)) <= k && k < len(*cr.CS) && isCondJump((*cr.CS)[k])
 //@ func pushingWhile [C05,C12]
 //@   requires[sel] 0 <= srcsel && srcsel <= 2
 //@   requires[ast] whileOK(w) && fl.Data().OpDepth == 0 && !fl.Data().Discard
@@ -248,6 +251,7 @@ package node
 //@   ensures[K2_code] csKept(cr) && csNewWF(cr)
 //@   ensures[K2_data] dsKept(cr) && crOK(cr)
 //@   ensures[K1_desc] descOnly(result, srcsel) && (bck(result, srcsel) == bytecode.AddrStck || (bck(result, srcsel) == bytecode.AddrInv && fl.Data().Returning))
+//@   ensures[cond_tested;C12,C09] exists k :: old(len(*cr.CS)) <= k && k < len(*cr.CS) && isCondJump((*cr.CS)[k])
 //
 // Entry points: a statement compiled for its value leaves exactly one PUSH when its result is not
 // already on the stack; compiled for effect, one POP when it is.
